@@ -27,10 +27,15 @@ package validation
 //@   requires [obj] serving != nil
 //@   panics-never
 
+// An accepted FlowControl has, in every schema, the local member its global member needs (the precondition under which
+// NewFlowControl is proved not to crash) and consistent limits: validation must look at the schema as it is stored.
+//@ const SCH = flowcontrol.Schemas
 //@ func ValidateFlowControl props C16
 //@   requires [obj] flowcontrol != nil
 //@   panics-never
-//@   loop 0: invariant [t] true
+//@   ensures [acc_all] len(result1) == 0 ==> forall j int :: {SCH[j]} 0 <= j && j < len(SCH) ==> (SCH[j].FlowControlSchemaConfiguration.GlobalMaxRequestsInflight != nil ==> SCH[j].FlowControlSchemaConfiguration.MaxRequestsInflight != nil) && (SCH[j].FlowControlSchemaConfiguration.GlobalTokenBucket != nil ==> SCH[j].FlowControlSchemaConfiguration.TokenBucket != nil)
+//@   loop 0: invariant [bounds] 0 <= idx && idx <= len(SCH) && flowcontrol.Schemas === old(flowcontrol.Schemas)
+//@   loop 0: invariant [acc_so_far] len(allErrs) == 0 ==> forall j int :: {SCH[j]} 0 <= j && j < idx ==> (SCH[j].FlowControlSchemaConfiguration.GlobalMaxRequestsInflight != nil ==> SCH[j].FlowControlSchemaConfiguration.MaxRequestsInflight != nil) && (SCH[j].FlowControlSchemaConfiguration.GlobalTokenBucket != nil ==> SCH[j].FlowControlSchemaConfiguration.TokenBucket != nil)
 
 //@ func ValidateLoggingConfig props C16
 //@   panics-never
